@@ -163,6 +163,9 @@ func l1CheckChain(res *MIME, n *MIME, label string) {
 			return
 		}
 		vAssert(r.mime == p.mime, label+":ancestor-type")
+		for k := 0; k < len(r.mime); k++ {
+			vAssert(r.mime[k] != ';', label+":ancestor-bare")
+		}
 		vAssert(r.extension == p.extension, label+":ancestor-extension")
 		r, p = r.parent, p.parent
 	}
